@@ -4,6 +4,7 @@ package main
 // the real L1InfoTreeSync facade; references: the GER contract's deposit-tree algorithm and a sparse rollup exit tree.
 
 import (
+	"database/sql"
 	"context"
 	"errors"
 	"fmt"
@@ -27,12 +28,17 @@ type liWorld struct {
 	dir, path string
 	p         *l1infotreesync.VerifProcessor
 	f         *l1infotreesync.L1InfoTreeSync
+	ctl       *sql.DB
 	lines     []string
 	survivors []string
 	survNums  []uint64
 }
 
 func (w *liWorld) close() {
+	if w.ctl != nil {
+		w.ctl.Close()
+		w.ctl = nil
+	}
 	if w.p != nil {
 		w.p.Close()
 		w.p = nil
@@ -54,6 +60,25 @@ func (w *liWorld) open(r *Run, fresh bool) {
 	must(err)
 	w.p = p
 	w.f = p.Facade()
+	if fresh {
+		// second connection arming one-shot storage faults (C07): the k-th write statement of the armed transaction fails
+		w.ctl, err = db.NewSQLiteDB(w.path)
+		must(err)
+		_, err = w.ctl.Exec(`CREATE TABLE verif_fault (id INTEGER PRIMARY KEY CHECK (id=1), armed INTEGER, target INTEGER, n INTEGER);
+			INSERT INTO verif_fault VALUES (1,0,0,0);`)
+		must(err)
+		for ti, t := range []string{"INSERT ON block", "INSERT ON l1info_leaf", "INSERT ON verify_batches", "INSERT ON l1info_initial",
+			"INSERT ON l1_info_root", "INSERT ON l1_info_rht", "INSERT ON rollup_exit_root", "INSERT ON rollup_exit_rht"} {
+			cond := "=1"
+			if ti < 4 {
+				cond = " IN (1,2)" // mode 2 counts the event rows only, so that each of them is hit often
+			}
+			_, err = w.ctl.Exec(fmt.Sprintf(`CREATE TRIGGER verif_f_%d BEFORE %s WHEN (SELECT armed FROM verif_fault)`+cond+` BEGIN
+				UPDATE verif_fault SET n = n + 1;
+				SELECT CASE WHEN (SELECT n FROM verif_fault) - 1 = (SELECT target FROM verif_fault) THEN RAISE(FAIL,'verif fault') END; END;`, ti, t))
+			must(err)
+		}
+	}
 }
 
 func liErr(err error) string {
@@ -62,6 +87,8 @@ func liErr(err error) string {
 		return "ok"
 	case errors.Is(err, sync.ErrInconsistentState):
 		return "err inconsistent"
+	case strings.Contains(err.Error(), "verif fault"):
+		return "err fault"
 	case strings.Contains(err.Error(), "constraint"):
 		return "err constraint"
 	}
@@ -285,6 +312,41 @@ func (w *liWorld) exec(r *Run, line string) string {
 			w.survivors = append(w.survivors, line)
 			w.survNums = append(w.survNums, bn)
 		}
+	case "blk!":
+		// `blk! <bn> <k> <events…>`: the k-th write statement of the block's transaction fails once. When the fault fires the
+		// attempt is recorded for the model as `blkF` (an environment event: SOME statement failed), otherwise as a plain `blk`.
+		bn := bigOf(ws[1]).Uint64()
+		blk := sync.Block{Num: bn, Hash: common.BigToHash(new(big.Int).SetUint64(bn*104729 + 7))}
+		for _, tok := range ws[3:] {
+			blk.Events = append(blk.Events, liParseEv(tok))
+		}
+		k, mode := bigOf(ws[2]).Uint64(), 1
+		if k >= 1000 {
+			k, mode = k-1000, 2 // count the block / leaf / batch / initial rows only
+		}
+		_, err := w.ctl.Exec(`UPDATE verif_fault SET armed=$1, target=$2, n=0`, mode, k)
+		must(err)
+		perr := w.p.ProcessBlock(ctx, blk)
+		_, e2 := w.ctl.Exec(`UPDATE verif_fault SET armed=0`)
+		if e2 != nil && strings.Contains(e2.Error(), "locked") {
+			r.Fail(fmt.Sprintf("[C07] after ProcessBlock(%d) returned `%v` the L1 info store stays locked for every other connection: the block's transaction was neither committed nor rolled back", bn, perr),
+				append([]string{"new"}, w.lines...))
+			panic(stopRun{})
+		}
+		must(e2)
+		obs = liErr(perr)
+		plain := strings.TrimSpace("blk " + ws[1] + " " + strings.Join(ws[3:], " "))
+		if obs == "ok" {
+			w.survivors = append(w.survivors, plain)
+			w.survNums = append(w.survNums, bn)
+		}
+		if obs == "err fault" {
+			r.Count("branch:storage-fault-hit")
+			r.Emit(strings.TrimSpace("blkF "+ws[1]+" "+strings.Join(ws[3:], " ")), obs)
+		} else {
+			r.Emit(plain, obs)
+		}
+		return obs
 	case "reorg":
 		b := bigOf(ws[1]).Uint64()
 		obs = liErr(w.p.Reorg(ctx, b))
